@@ -164,6 +164,67 @@ def run(res, drv, tier, seed):
                                   {'request': canon, 'model': it, 'stream': 'C11.colOK'})
                     break
         res.extra['groups_checked_by_verified_colOK'] = len(items)
+    sequences(res, tier, seed)
+
+
+def sequences(res, tier, seed):
+    """multi-step use of one model object: (i) cached marginals, a short preview, then the full table;
+    (ii) generate, give the same object new parameters, generate again — each table must realise the
+    parameters the model has at that moment"""
+    r = rng(seed, 'C11-seq')
+    for ci in range(6 if tier == 'quick' else 40):
+        dom, cl, kind = gmgen.gen_structure(r, 300, nmax=4)
+        total = r.choice([200, 1000, 5000])
+        model = gmgen.build_model(dom, cl, float(total), None)
+        attrs = [a for a, _ in dom]
+        sizes = dict(map(tuple, dom))
+        pots1 = gmgen.gen_potentials(r, model, zero_p=0.2)
+        pots2 = gmgen.gen_potentials(r, model, zero_p=0.2)
+        j1, j2 = gmgen.brute_joint(dom, pots1), gmgen.brute_joint(dom, pots2)
+        if sum(j1.values()) == 0 or sum(j2.values()) == 0:
+            continue
+        mode = ['cache-preview-full', 'regenerate-after-new-parameters'][ci % 2]
+        canon = {'dom': dom, 'cliques': cl, 'total': total, 'sequence': mode, 'pots': gmgen.enc_pots(pots1), 'pots2': gmgen.enc_pots(pots2)}
+        res.case(canon, True)
+        res.count('sequence:' + mode)
+        np.random.seed(r.randrange(2 ** 31))
+        try:
+            with np.errstate(all='ignore'):
+                model.potentials = gmgen.impl_potentials(pots1)
+                if mode == 'cache-preview-full':
+                    model.marginals = model.belief_propagation(model.potentials)
+                    model.synthetic_data(rows=7)
+                    synth = model.synthetic_data()
+                    joint = j1
+                else:
+                    model.synthetic_data()
+                    model.potentials = gmgen.impl_potentials(pots2)
+                    synth = model.synthetic_data()
+                    joint = j2
+        except Exception as e:
+            res.violation('failing-input', f'synthetic_data raises {type(e).__name__} in the sequence {mode}', {'request': canon}, key='synth:sequence-raises')
+            continue
+        df = synth.df
+        B = sum(math.prod([sizes[a] for a in attrs][:k + 1]) for k in range(len(attrs)))
+        bad = None
+        tc = table_counts(df, attrs)
+        for cell, cnt in tc.items():
+            if joint[cell] == 0:
+                bad = f'{cnt} record(s) in cell {dict(zip(attrs, cell))} to which the model (current parameters) gives probability zero'
+                break
+        if not bad:
+            for c in model.cliques:
+                c = list(c)
+                P = gmgen.brute_marginal(dom, joint, c, Fr(df.shape[0]))
+                got = table_counts(df, c)
+                for cell, p in zip(itertools.product(*[range(sizes[a]) for a in c]), P):
+                    if abs(got.get(cell, 0) - float(p)) > B:
+                        bad = f'clique {c} cell {cell}: count {got.get(cell, 0)} vs expected {float(p):.2f} under the model\'s current parameters'
+                        break
+                if bad:
+                    break
+        if bad:
+            res.violation('failing-input', f'synthetic_data in the sequence "{mode}": {bad}', {'request': canon, 'expected': bad}, key='synth:sequence')
 
 
 def search(res, tier, seed, broken):
